@@ -1236,6 +1236,7 @@ func runC04(c *Ctx, pr *PropertyRun) {
 	if prod != nil {
 		one.Role("etag-always-filled")
 		filled := false
+		blanked := ""
 		eachInstr(prod, func(b *ssa.BasicBlock, in ssa.Instruction) {
 			st, ok := in.(*ssa.Store)
 			if !ok {
@@ -1258,7 +1259,14 @@ func runC04(c *Ctx, pr *PropertyRun) {
 			if dom && nonEmpty {
 				filled = true
 			}
+			if !nonEmpty {
+				// a later (conditional) store can blank the tag again
+				blanked = p.instrPos(st)
+			}
 		})
+		if blanked != "" {
+			filled = false
+		}
 		one.Ob(filled)
 		if !filled {
 			one.Violation("etag-may-be-empty|"+fnKey(prod), p.Pos(prod.Pos()), fnKey(prod)+" does not give every resource a non-empty entity tag on every path: checkConditionalMatches and MatchETag read an empty tag as 'no such resource', so If-Match/If-None-Match on such a resource are evaluated as if it were absent", nil)
